@@ -71,6 +71,9 @@ func (r *roaBucket) GetEntries() []*ROA {
 type ROATable struct {
 	trees  map[bgp.Family]*critbitgo.Net
 	logger *slog.Logger
+	// LocalAS is the AS of this speaker, the origin AS of routes
+	// which don't have a source peer (locally originated ones).
+	LocalAS uint32
 }
 
 func NewROATable(logger *slog.Logger) *ROATable {
@@ -198,6 +201,9 @@ func (rt *ROATable) Validate(path *Path) *Validation {
 	}
 
 	ownAs := path.OriginInfo().source.LocalAS
+	if ownAs == 0 {
+		ownAs = rt.LocalAS
+	}
 	asPath := path.GetAsPath()
 	var as uint32
 
